@@ -205,6 +205,11 @@ OnKill(C, m, t, sig, foreign) ==
               !.badkill = @ \/ foreign \/ sig # 15,
               !.viol = @ \cup V(~foreign, "OnlyOwnGroups")]
 
+(* a version recorded by this invocation (read from the index afterwards): it is the version whose directory the task was    *)
+(* given as COND_OUT - what `cond where` and dependents' COND_DEPS will point at later is what this execution wrote            *)
+OnRow(C, m, t, ts) ==
+    [m EXCEPT !.viol = @ \cup V(t \in DOMAIN m.outTs /\ m.outTs[t] = ts, "RowIsTheVersionRun")]
+
 OnAbort(C, m, liveTasks) ==
     [m EXCEPT !.aborted = TRUE, !.liveAtAbort = liveTasks]
 
